@@ -34,7 +34,7 @@ func zz5ioHeader(oneway bool, what string) {
 	if len(got) == 22+n {
 		zzvf.Assert(got[0] == src, what+"/bytes/source")
 		zzvf.Assert(got[1] == ver, what+"/bytes/version")
-		zzvf.Assert(zzvf.Same(got[2:10], zz5ioBE(uint64(lh), 8)), what+"/bytes/project-code")
+		zzvf.Assert(zzvf.Same(got[2:10], zz5ioBE(uint64(pcode), 8)), what+"/bytes/project-code")
 		zzvf.Assert(zzvf.Same(got[10:18], zz5ioBE(uint64(lh), 8)), what+"/bytes/license-hash")
 		zzvf.Assert(zzvf.Same(got[18:22], zz5ioBE(uint64(n), 4)), what+"/bytes/length")
 		zzvf.Assert(zzvf.Same(got[22:], payload), what+"/bytes/payload")
